@@ -20,7 +20,7 @@ template <class PT> void run_set(vf::Ctx& c, const char* tname, const regref::Se
   auto rots = regref::rotations(DIM, th ? 2 : 1);
   std::vector<V3> trans = {V3(0, 0, 0), V3(0.3, -1.2, DIM == 3 ? 2 : 0), V3(1e3, -1e3, DIM == 3 ? 10 : 0)};
   size_t n = set.pts.size();
-  FindRigidTransformationBySVD<PT> reusedEstimator;   // one estimator object serves every problem of this set as well
+  FindRigidTransformationBySVD<PT> reusedEstimator, assignedEstimator;   // one estimator object serves every problem of this set as well; another one is overwritten by it each time
   for (size_t ir = 0; ir < rots.size(); ++ir) for (size_t it = 0; it < trans.size(); ++it) for (int sig = 0; sig < 3; ++sig) {
     LD sigma = sig == 0 ? 0 : sig == 1 ? 1e-3L : 0.1L;
     PointSet<PT> src, tgt;
@@ -68,9 +68,17 @@ template <class PT> void run_set(vf::Ctx& c, const char* tname, const regref::Se
         if (ov >= 2) { LD side = 0; for (int d = 0; d < DIM; ++d) { LD lo = 1e300, hi = -1e300; for (auto& p : rs) { lo = std::min(lo, p[d]); hi = std::max(hi, p[d]); } side = std::max(side, hi - lo); } scale = sc == 0 ? (S)1e-3 : sc == 1 ? (S)(1 / side) : sc == 2 ? (S)1 : (S)1e3; }
         FindRigidTransformationBySVD<PT> est;
         H got;
-        if (ov == 0) { got = est.find(src, tgtUse, cor); H again = reusedEstimator.find(src, tgtUse, cor); if ((again - got).norm() != 0) c.violation("FindRigidTransformationBySVD.find.dependsOnHistory", vf::JO().str("type", tname).str("set", set.name).u("rotation", ir).u("translation", it).i("correspondence_mode", cm).done(), vf::JO().num("difference_vs_fresh", (double)(again - got).norm()).done()); }
-        else if (ov == 1) got = est.find(src, tgtUse);
-        else { PreconditionedPointSet<PT> ps(src, scale), pt(tgtUse, scale); got = ov == 2 ? est.find(ps, pt, cor) : est.find(ps, pt); }
+        auto run = [&](FindRigidTransformationBySVD<PT>& e) -> H {
+          if (ov == 0) return e.find(src, tgtUse, cor);
+          if (ov == 1) return e.find(src, tgtUse);
+          PreconditionedPointSet<PT> ps(src, scale), pt(tgtUse, scale); return ov == 2 ? e.find(ps, pt, cor) : e.find(ps, pt);
+        };
+        got = run(est);
+        {   // the long-lived estimator (every overload in turn), a copy of it, and another long-lived estimator overwritten by assignment
+          H again = run(reusedEstimator); FindRigidTransformationBySVD<PT> cp(reusedEstimator); H viaCopy = run(cp); assignedEstimator = reusedEstimator; H viaAssigned = run(assignedEstimator);
+          if ((again - got).norm() != 0 || (viaCopy - got).norm() != 0 || (viaAssigned - got).norm() != 0)
+            c.violation("FindRigidTransformationBySVD.find.dependsOnHistory", vf::JO().str("type", tname).str("set", set.name).u("rotation", ir).u("translation", it).i("correspondence_mode", cm).i("overload", ov).done(), vf::JO().num("reused_vs_fresh", (double)(again - got).norm()).num("copy_vs_fresh", (double)(viaCopy - got).norm()).num("assigned_vs_fresh", (double)(viaAssigned - got).norm()).done());
+        }
         c.eval(); if (set.coplanar || sig || cm || ov) c.nontrivial();
         for (int i = 0; i < (DIM + 1) * (DIM + 1); ++i) c.obs((double)got(i / (DIM + 1), i % (DIM + 1)));
         std::string p2 = vf::JO().str("type", tname).str("set", set.name).u("points", n).u("rotation", ir).u("translation", it).num("sigma", sigma).i("correspondence_mode", cm).i("overload", ov).num("preconditioning_scale", scale).done();
